@@ -31,17 +31,17 @@ def plain(magic, key, value):
 
 
 def layout_mixed():
-    """offsets 0,1 plain v0 | 3..5 gzip wrapper v1 (relative inner offsets) | 6 big v1 | 8,9 gzip wrapper v0 | 10 plain v1
-    (2 and 7 compacted away)"""
+    """offsets 0,1 plain v0 | 3,4,6 in a gzip wrapper v1 (relative inner offsets 0,1,3: offset 5 compacted away inside
+    the batch) | 7 big v1 | 9,10 gzip wrapper v0 | 11 plain v1   (2, 5 and 8 compacted away)"""
     v = lambda o: b"value-%02d" % o
     k = lambda o: (b"k%d" % o) if o % 2 else None
-    inner1 = [(i, plain(1, k(3 + i), v(3 + i))) for i in range(3)]
-    inner0 = [(8, plain(0, k(8), v(8))), (9, plain(0, k(9), v(9)))]
+    inner1 = [(0, plain(1, k(3), v(3))), (1, plain(1, k(4), v(4))), (3, plain(1, k(6), v(6)))]
+    inner0 = [(9, plain(0, k(9), v(9))), (10, plain(0, k(10), v(10)))]
     return [(0, plain(0, k(0), v(0))), (1, plain(0, k(1), v(1))),
-            (5, kwire.wrapper(1, inner1, ts=1500000000000)),
-            (6, plain(1, k(6), b"B" * 300)),
-            (9, kwire.wrapper(0, inner0)),
-            (10, plain(1, k(10), v(10)))]
+            (6, kwire.wrapper(1, inner1, ts=1500000000000)),
+            (7, plain(1, k(7), b"B" * 300)),
+            (10, kwire.wrapper(0, inner0)),
+            (11, plain(1, k(11), v(11)))]
 
 
 def layout_small():
